@@ -6,6 +6,7 @@ import (
 	"strings"
 
 	"github.com/fufuok/cache/internal/vshim/sched"
+	"github.com/fufuok/cache/internal/xsync"
 )
 
 type KeyRel int
@@ -98,6 +99,8 @@ type MapScen struct {
 	// Cycled: before the scenario's own prologue the map grows and shrinks back to its minimum length
 	// (the scenario starts from a non-initial state: used table, used counter stripes, a resize history)
 	Cycled    bool
+	// GrowOnly: the map is built WithGrowOnly() (never shrinks; Clear must still empty it)
+	GrowOnly  bool
 	Threads   [][]MIn
 	NoBlock   []bool
 	MaxSteps  []int
@@ -120,6 +123,9 @@ func (ms *MapScen) name() string {
 	}
 	if ms.FillFirst {
 		sb.WriteString("/overflow")
+	}
+	if ms.GrowOnly {
+		sb.WriteString("/grow-only")
 	}
 	if ms.Cycled {
 		sb.WriteString("/after-grow-and-shrink")
@@ -185,7 +191,11 @@ func countCheck(m MapLike, where string) {
 
 func (ms *MapScen) setupRaw(out *MapLike) MState {
 	l := layoutFor(ms.Rel)
-	m := newContainer(ms.C, l)
+	var opts []func(*xsync.MapConfig)
+	if ms.GrowOnly {
+		opts = append(opts, xsync.WithGrowOnly())
+	}
+	m := newContainer(ms.C, l, opts...)
 	*out = m
 	slots := ms.C.slots()
 	var st MState
@@ -224,7 +234,11 @@ func (ms *MapScen) setupRaw(out *MapLike) MState {
 		}
 		countCheck(m, "after a grow and a shrink back to the minimum length")
 		s := m.Stats()
-		if s.TotalGrowths < 1 || s.TotalShrinks < 1 || s.RootBuckets != 32 || s.Size != 0 {
+		if ms.GrowOnly {
+			if s.TotalGrowths < 1 || s.TotalShrinks != 0 || s.RootBuckets != 64 || s.Size != 0 {
+				panic(fmt.Sprintf("prologue: grow-only map did not stay grown and empty: %+v", s))
+			}
+		} else if s.TotalGrowths < 1 || s.TotalShrinks < 1 || s.RootBuckets != 32 || s.Size != 0 {
 			panic(fmt.Sprintf("prologue: grow/shrink cycle did not return to an empty minimum table: %+v", s))
 		}
 		baseG, baseS = s.TotalGrowths, s.TotalShrinks
